@@ -310,6 +310,17 @@ def eof_classification(ck, F):
         ck.ok('EK', 'is_eof_error <=> UnhandledIoError(kind = UnexpectedEof) (discriminant resolved through the toolchain\'s library source)', where_of(b))
 
 
+    # .. and an I/O error reaches that test unchanged: From<io::Error> wraps it as UnhandledIoError(e)
+    from ..dataflow import expr_of as _eo
+    try:
+        fb = F.body('h263_rs::<error::Error as std::convert::From<std::io::Error>>::from')
+        e = _eo(F, fb, {'o': 'copy', 'p': {'l': 0, 'proj': []}})
+        if e == ('agg', 'UnhandledIoError', ('param', 1, ())): ck.ok('EK', 'From<io::Error> for Error = UnhandledIoError(e)', where_of(fb))
+        else: ck.violation('EK', 'EK : From<io::Error> : form', where_of(fb), 'the conversion of an I/O error is %s, expected UnhandledIoError(e)' % expr_str(e))
+    except (KeyError, Unanalysable) as ex:
+        ck.violation('EK', 'EK : From<io::Error> : missing', None, 'From<io::Error> for Error not found (%s)' % ex)
+
+
 def run(ck, F, tier):
     ck.explanation = ('C15 decided structurally on MIR of the decode closure: M7 the macroblock loop is bounded by the macroblock count (exit test '
                       'dominating the macroblock parse); RS the resynchronisation probe is a union transaction whose Ok(None) arm leaves the loop without '
